@@ -47,3 +47,25 @@ Proof. exact dur_bound. Qed.
 
 Theorem C09_order_content : forall rate, preserving (TBandwidth rate).
 Proof. intros; exact I. Qed.
+
+(** ---- sequences of chunks (each at most 100 ms worth of budget, i.e. not split into instalments)
+    through the stage with a ready receiver: the stage's run is the closed form [bw_sched] - chunk k,
+    picked up at p_k with credit a_k <= 0, leaves whole at p_k + max(0, a_k + floor(L_k*10^6/rate))
+    and the oversleep is credited on - for every rate, every sequence, every pacing *)
+From TP Require Import Proofs.StageFeed Proofs.FeedProofs.
+
+Theorem C09_sequence_closed_form : forall rate, rate_ok rate -> forall fuel, (1 < fuel)%nat -> forall ps arr acc,
+  - two63 / 2 <= acc <= 0 -> Forall (fun pc => small_for rate (snd pc)) arr ->
+  feed (TBandwidth rate) fuel ps (Idle acc None) (arrivals arr) =
+  (fst (bw_sched rate acc arr), Idle (snd (bw_sched rate acc arr)) None, ps).
+Proof. exact bw_feed. Qed.
+
+(** THE RATE BOUND for such sequences: whenever each chunk is picked up no earlier than the previous
+    one left (the stage is sequential), by the time chunk k leaves at most rate bytes per millisecond
+    have been forwarded since the first pick-up, plus one nanosecond's worth per chunk (Go's
+    truncating division): 10^6 * bytes(1..k) < rate * (e_k - p_1 - credit) + rate * k *)
+Theorem C09_rate_bound : forall rate, 0 < rate -> forall arr acc base,
+  acc <= 0 -> picked_after base arr (fst (bw_sched rate acc arr)) ->
+  forall k e d, nth_error (fst (bw_sched rate acc arr)) k = Some (e, d) ->
+  1000000 * sumlen (firstn (S k) arr) < rate * (e - base - acc) + rate * Z.of_nat (S k).
+Proof. exact bw_rate_bound. Qed.
